@@ -395,6 +395,47 @@ theorem holds_store_topicless (s : Src) (m : Msg) (topics : List Topic) (k : Int
 theorem holds_congr (s s' : Src) (h : s'.recvd = s.recvd) : holds s' → holds s := by
   rintro ⟨l, hl, rest⟩; exact ⟨l, h ▸ hl, rest⟩
 
+/-- shape of the source list after a synchronised take in a balanced receiver -/
+theorem syncApply_bal_get (st : St) (i : Nat) (s : Src) (m : Msg) (topics : List Topic) (res : PM) (r : Option Recvd)
+    (hlen : i < st.srcs.length) (hbal : st.balance = true) :
+    ∀ (j : Nat) (sj : Src), (syncApply st i s m topics res r).1.srcs[j]? = some sj →
+      (j = i ∧ sj = storeRecvd s r topics) ∨
+      (j ≠ i ∧ ∃ sj0, st.srcs[j]? = some sj0 ∧ sj.recvd = sj0.recvd ∧ sj.eph = sj0.eph ∧
+          ((m.topic ≠ "" ∧ sj.reg = false) ∨ (m.topic = "" ∧ sj.reg = sj0.reg))) := by
+  intro j sj hj
+  unfold syncApply at hj
+  simp only [hbal, not_true_eq_false, and_false, ↓reduceIte, true_and] at hj
+  by_cases ht : m.topic = ""
+  · simp only [ht, ne_eq, not_true_eq_false, ↓reduceIte] at hj
+    rw [List.getElem?_set] at hj
+    by_cases hij : i = j
+    · subst hij; simp only [hlen, ↓reduceIte] at hj; cases hj; left; exact ⟨rfl, rfl⟩
+    · simp only [hij, ↓reduceIte] at hj
+      right; exact ⟨fun h => hij h.symm, sj, hj, rfl, rfl, Or.inr ⟨ht, rfl⟩⟩
+  · simp only [ht, ne_eq, not_false_eq_true, ↓reduceIte] at hj
+    rw [lockOthers_get, List.getElem?_set] at hj
+    by_cases hij : i = j
+    · subst hij
+      simp only [hlen, ↓reduceIte, Option.map_some, ne_eq, not_true_eq_false] at hj
+      cases hj; left; exact ⟨rfl, rfl⟩
+    · simp only [hij, ↓reduceIte] at hj
+      cases h0 : st.srcs[j]? with
+      | none => rw [h0] at hj; cases hj
+      | some sj0 =>
+        rw [h0] at hj
+        have hji : j ≠ i := fun h => hij h.symm
+        simp only [Option.map_some, ne_eq, hji, not_false_eq_true, ↓reduceIte] at hj
+        cases hj
+        right; exact ⟨hji, sj0, rfl, rfl, rfl, Or.inl ⟨ht, rfl⟩⟩
+
+/-- balanced receiver: the source that is being polled proves that nobody else holds a frame -/
+theorem others_not_hold (st : St) (i : Nat) (s0 : Src) (hs : st.srcs[i]? = some s0) (hreg : s0.reg = true)
+    (hbal : st.balance = true) (hL : LockInv st) :
+    ∀ (j : Nat) (sj : Src), j ≠ i → st.srcs[j]? = some sj → sj.eph = 0 → ¬ holds sj := by
+  intro j sj hji hj he hh
+  have := hL hbal j i sj s0 hji hj hs he hh
+  rw [hreg] at this; cases this
+
 theorem syncApply_inv_bal (st : St) (i : Nat) (s0 s : Src) (m : Msg) (topics : List Topic)
     (hs : st.srcs[i]? = some s0) (h1 : s.recvd = s0.recvd) (hsync : s0.eph = 0) (hreg : s0.reg = true)
     (hin : st.inCall = true) (hbal : st.balance = true) (hS : SameId st) (hL : LockInv st)
@@ -408,42 +449,8 @@ theorem syncApply_inv_bal (st : St) (i : Nat) (s0 s : Src) (m : Msg) (topics : L
   have hi := store_entries s m topics st.minRecvId hold hno
   have hlen : i < st.srcs.length := by
     rcases List.getElem?_eq_some_iff.mp hs with ⟨h, _⟩; exact h
-  -- no other source holds a frame: source i is registered
-  have hothers : ∀ (j : Nat) (sj : Src), j ≠ i → st.srcs[j]? = some sj → sj.eph = 0 → ¬ holds sj := by
-    intro j sj hji hj he hh
-    have := hL hbal j i sj s0 hji hj hs he hh
-    rw [hreg] at this; cases this
-  -- shape of the new source list
-  have hget : ∀ (j : Nat) (sj : Src),
-      (syncApply st i s m topics (processMsg s m topics st.minRecvId).1 (processMsg s m topics st.minRecvId).2).1.srcs[j]? = some sj →
-      (j = i ∧ sj = storeRecvd s (processMsg s m topics st.minRecvId).2 topics) ∨
-      (j ≠ i ∧ ∃ sj0, st.srcs[j]? = some sj0 ∧ sj.recvd = sj0.recvd ∧ sj.eph = sj0.eph ∧
-          ((m.topic ≠ "" ∧ sj.reg = false) ∨ (m.topic = "" ∧ sj.reg = sj0.reg))) := by
-    intro j sj hj
-    unfold syncApply at hj
-    simp only [hbal, not_true_eq_false, and_false, ↓reduceIte, true_and] at hj
-    by_cases ht : m.topic = ""
-    · simp only [ht, ne_eq, not_true_eq_false, ↓reduceIte] at hj
-      rw [List.getElem?_set] at hj
-      by_cases hij : i = j
-      · subst hij; simp only [hlen, ↓reduceIte] at hj; cases hj; left; exact ⟨rfl, rfl⟩
-      · simp only [hij, ↓reduceIte] at hj
-        right; exact ⟨fun h => hij h.symm, sj, hj, rfl, rfl, Or.inr ⟨ht, rfl⟩⟩
-    · simp only [ht, ne_eq, not_false_eq_true, ↓reduceIte] at hj
-      rw [lockOthers_get, List.getElem?_set] at hj
-      by_cases hij : i = j
-      · subst hij
-        simp only [hlen, ↓reduceIte, Option.map_some, ne_eq, not_true_eq_false] at hj
-        cases hj; left; exact ⟨rfl, rfl⟩
-      · simp only [hij, ↓reduceIte] at hj
-        cases h0 : st.srcs[j]? with
-        | none => rw [h0] at hj; cases hj
-        | some sj0 =>
-          rw [h0] at hj
-          have hji : j ≠ i := fun h => hij h.symm
-          simp only [Option.map_some, ne_eq, hji, not_false_eq_true, ↓reduceIte] at hj
-          cases hj
-          right; exact ⟨hji, sj0, rfl, rfl, rfl, Or.inl ⟨ht, rfl⟩⟩
+  have hothers := others_not_hold st i s0 hs hreg hbal hL
+  have hget := syncApply_bal_get st i s m topics (processMsg s m topics st.minRecvId).1 (processMsg s m topics st.minRecvId).2 hlen hbal
   constructor
   · unfold SameId
     intro j sj hj he l hl
